@@ -34,7 +34,8 @@ def run(ctx, report):
     report.section("tables", tables, ctx, report, folder)
     report.section("wrap", wrap, ctx, report)
     report.section("timecode", timecode, ctx, report, folder)
-    report.section("pre-roll", preroll, ctx, report, folder)
+    report.structural_section("pre-roll (symbolic form)", "R-E2E 'visible' (every caption after the first becomes visible within three "
+                              "frames of its start, on generated caption sets incl. cues of five and more rows)", preroll, ctx, report, folder)
     report.section("header", header, ctx, report, folder)
     report.section("word shape", word_shape, ctx, report, folder)
     from . import scc_writer_fold
